@@ -187,7 +187,7 @@ func (m *monitor) runFileCase(fc fileCase) (judged int, nontrivial bool) {
 			nontrivial = true
 		}
 		if got != want[path] {
-			m.r.Violation(vrun.Sig{"ep": "FileHash", "pre": pre, "effect": "wrong digest", "backend": fc.Backend},
+			m.r.Violation(vrun.Sig{"ep": "FileHash", "pre": pre, "cause": cause, "effect": "wrong digest", "backend": fc.Backend},
 				fmt.Sprintf("%s %s(%s file of %d bytes) = %s, reference of its bytes %s [%s (%s)]", a.Name, ep, fc.Backend, len(bytesAt[path]), got, want[path], pre, cause), witness())
 		}
 	}
